@@ -39,6 +39,7 @@ extern "C" {
     fn _exit(code: i32) -> !;
     fn clock_gettime(clk: i32, ts: *mut Timespec) -> i32;
     fn mallopt(param: i32, value: i32) -> i32;
+    fn signal(signum: i32, handler: usize) -> usize;
 }
 #[repr(C)]
 struct Timespec {
@@ -59,12 +60,14 @@ struct Rlimit {
 }
 const RLIMIT_AS: i32 = 9; // linux
 
-/// Allocator wrapper: a single request above the cap (or a failed allocation) is reported as
-/// an observation ("alloc_at", with the index of the call) instead of an unlocated abort.
+/// Allocator wrapper: a single request above the cap is refused; if that (or any other failed allocation)
+/// ends in abort(), the SIGABRT handler reports "alloc_at" with the index of the call; an abort for
+/// another reason is reported as "abort_at".
 struct CapAlloc;
 static ALLOC_CAP: AtomicUsize = AtomicUsize::new(usize::MAX);
 static SHARED: OnceLock<Arc<Mutex<Shared>>> = OnceLock::new();
 static IN_BOMB: AtomicBool = AtomicBool::new(false);
+static LAST_REFUSED: AtomicUsize = AtomicUsize::new(0);
 static OUT_FD: AtomicI32 = AtomicI32::new(-1);
 
 fn write_all(fd: i32, s: &str) {
@@ -79,15 +82,21 @@ fn write_all(fd: i32, s: &str) {
     }
 }
 
-fn alloc_bomb(size: usize) -> ! {
+/// Called from the SIGABRT handler (Rust's handle_alloc_error ends in abort()): report where, then leave.
+fn report_abort() -> ! {
     if !IN_BOMB.swap(true, Ordering::SeqCst) {
         ALLOC_CAP.store(usize::MAX, Ordering::SeqCst);
         let fd = OUT_FD.load(Ordering::SeqCst);
+        let size = LAST_REFUSED.load(Ordering::SeqCst);
         if let (Some(sh), true) = (SHARED.get(), fd >= 0) {
             if let Ok(g) = sh.try_lock() {
                 let mut r = partial_json(&g);
-                r["alloc_at"] = json!(g.cur);
-                r["alloc_size"] = json!(size as u64);
+                if size > 0 {
+                    r["alloc_at"] = json!(g.cur);
+                    r["alloc_size"] = json!(size as u64);
+                } else {
+                    r["abort_at"] = json!(g.cur);
+                }
                 write_all(fd, &format!("{}\n", r));
                 unsafe { _exit(98) }
             }
@@ -95,15 +104,21 @@ fn alloc_bomb(size: usize) -> ! {
     }
     unsafe { _exit(99) }
 }
+extern "C" fn on_sigabrt(_sig: i32) {
+    report_abort()
+}
 
+/// A single request above the cap is REFUSED (null), exactly like an allocator that is out of memory:
+/// fallible callers (try_reserve) see an error, infallible ones go through handle_alloc_error -> abort().
 unsafe impl GlobalAlloc for CapAlloc {
     unsafe fn alloc(&self, l: Layout) -> *mut u8 {
         if l.size() > ALLOC_CAP.load(Ordering::Relaxed) {
-            alloc_bomb(l.size());
+            LAST_REFUSED.store(l.size(), Ordering::SeqCst);
+            return std::ptr::null_mut();
         }
         let p = System.alloc(l);
         if p.is_null() && l.size() > 0 {
-            alloc_bomb(l.size());
+            LAST_REFUSED.store(l.size(), Ordering::SeqCst);
         }
         p
     }
@@ -112,21 +127,23 @@ unsafe impl GlobalAlloc for CapAlloc {
     }
     unsafe fn alloc_zeroed(&self, l: Layout) -> *mut u8 {
         if l.size() > ALLOC_CAP.load(Ordering::Relaxed) {
-            alloc_bomb(l.size());
+            LAST_REFUSED.store(l.size(), Ordering::SeqCst);
+            return std::ptr::null_mut();
         }
         let p = System.alloc_zeroed(l);
         if p.is_null() && l.size() > 0 {
-            alloc_bomb(l.size());
+            LAST_REFUSED.store(l.size(), Ordering::SeqCst);
         }
         p
     }
     unsafe fn realloc(&self, p: *mut u8, l: Layout, n: usize) -> *mut u8 {
         if n > ALLOC_CAP.load(Ordering::Relaxed) {
-            alloc_bomb(n);
+            LAST_REFUSED.store(n, Ordering::SeqCst);
+            return std::ptr::null_mut();
         }
         let q = System.realloc(p, l, n);
         if q.is_null() && n > 0 {
-            alloc_bomb(n);
+            LAST_REFUSED.store(n, Ordering::SeqCst);
         }
         q
     }
@@ -319,6 +336,9 @@ fn run_batch(case: &Value, p: &Pool, cap_mb: usize) -> Value {
         results: if detail { Some(Vec::new()) } else { None },
     }));
     let _ = SHARED.set(Arc::clone(&shared));
+    unsafe {
+        signal(6, on_sigabrt as *const () as usize); // SIGABRT
+    }
     {
         let sh = Arc::clone(&shared);
         std::thread::spawn(move || loop {
@@ -366,6 +386,7 @@ fn run_batch(case: &Value, p: &Pool, cap_mb: usize) -> Value {
         }
         let t0 = Instant::now();
         nvh::set_fuel(fuel);
+        LAST_REFUSED.store(0, Ordering::SeqCst);
         ALLOC_CAP.store(cap_mb << 20, Ordering::SeqCst);
         let f2 = func.clone();
         let env2 = Rc::clone(&env);
